@@ -254,10 +254,13 @@ def main(mod, argv=None):
       nondet.append(r["index"])
 
   known = load_known(mod.PROP)
-  for k in sorted(agg.known):
+  for k in sorted(set(known) | set(agg.known)):
     what = known.get(k, {}).get("what", k)
-    print("KNOWN-FINDING: property=%s %s [%s; hit in %d runs, e.g. index %d]"
-          % (mod.PROP, what, k, agg.known[k], agg.known_example.get(k, -1)))
+    n = agg.known.get(k, 0)
+    where = ("hit in %d runs, e.g. index %d" % (n, agg.known_example.get(k, -1))
+             if n else "listed; not reached by this run's seeds")
+    print("KNOWN-FINDING: property=%s %s [%s; %s]"
+          % (mod.PROP, what, k, where))
 
   for rr, path, nexec in violations:
     print("violation class=%s detail=%s (minimised with %d executions)"
